@@ -708,12 +708,12 @@ inductive WriteResult
 deriving DecidableEq, Repr
 
 /-- `validate()` then `write_into` (as `dump_table` and `GlyfLocaBuilder::add_glyph` do).
-Validation: simple `instructions.len() > u16::MAX`; composite: no components or
-`instructions.len() > u16::MAX`. -/
+Validation: simple `instructions.len() > u16::MAX` or (after `fix:` 006a7c4) more than `u16::MAX`
+points in total; composite: no components or `instructions.len() > u16::MAX`. -/
 def writeGlyph : Glyph → WriteResult
   | .empty => .ok []
   | .simple g =>
-    if g.instructions.length > 65535 then .invalid else
+    if g.instructions.length > 65535 ∨ (g.contours.map List.length).sum > 65535 then .invalid else
     match writeSimple g with
     | some b => .ok b
     | none => .trap
